@@ -455,10 +455,13 @@ func (x *Explorer) libModel(st *State, f *Frame, ins ssa.Instruction, key string
 	case "sync/atomic.Bool.Store":
 		st.store(fieldPtr(args[0].(VPtr), e, "v"), VInt{T: Ite(asInt(args[1]), IntLit(1), IntLit(0))})
 		return nil, true
-	case "encoding/binary.littleEndian.PutUint64", "encoding/binary.littleEndian.PutUint32":
+	case "encoding/binary.littleEndian.PutUint64", "encoding/binary.littleEndian.PutUint32", "encoding/binary.bigEndian.PutUint64", "encoding/binary.bigEndian.PutUint32":
 		bits, name := int64(8), "le64"
 		if strings.HasSuffix(key, "32") {
 			bits, name = 4, "le32"
+		}
+		if strings.Contains(key, "bigEndian") {
+			name = "b" + name[1:]
 		}
 		b := args[1].(VSlice)
 		x.check(st, "index", Ge(b.Len, IntLit(bits)), ins)
@@ -473,10 +476,13 @@ func (x *Explorer) libModel(st *State, f *Frame, ins ssa.Instruction, key string
 			st.note("binary.PutUint on a longer buffer: other bytes havocked")
 		}
 		return nil, true
-	case "encoding/binary.littleEndian.Uint64", "encoding/binary.littleEndian.Uint32":
+	case "encoding/binary.littleEndian.Uint64", "encoding/binary.littleEndian.Uint32", "encoding/binary.bigEndian.Uint64", "encoding/binary.bigEndian.Uint32":
 		bits, name := int64(8), "le64"
 		if strings.HasSuffix(key, "32") {
 			bits, name = 4, "le32"
+		}
+		if strings.Contains(key, "bigEndian") {
+			name = "b" + name[1:]
 		}
 		b := args[1].(VSlice)
 		x.check(st, "index", Ge(b.Len, IntLit(bits)), ins)
